@@ -1,7 +1,12 @@
 // C20 lane: several WorkdayAlarms sharing one WorkdayCalendar; calendar updates must re-arm EVERY enabled alarm to the earliest
 // matching instant under the new calendar (engine H, in-process BFS, fixed virtual wall clock).  usage: calendar_harness <depth>
+// Judged by the reference model AND by what would really fire: the alarm's TimerEvent interval and its record in the loop's timer heap must
+// wait at least the wall distance to that instant, the loop must hold exactly one timer record per enabled alarm (no stale record of an
+// earlier arming left running) and none for a disabled alarm.
 #include "hist/hist.h"
 #include <tbox/event/loop.h>
+#include <tbox/event/common_loop.h>
+#include <tbox/event/timer_event_impl.h>
 #include <tbox/alarm/workday_alarm.h>
 #include <tbox/alarm/workday_calendar.h>
 #include <sys/time.h>
@@ -32,6 +37,7 @@ int main(int argc, char **argv) {
     for (int d = 0; d < 3; d++) for (int v = 0; v < 3; v++) m.push_back({SPECIAL, d, v}); for (int k = 0; k < 3; k++) m.push_back({MASK, k, 0}); return m; };
   ex.run = [&](const std::vector<Op> &h, std::string &viol) {
     g_virt = true; event::Loop *loop = event::Loop::New(); WorkdayCalendar *cal = new WorkdayCalendar; WorkdayAlarm *al[NA]; bool en[NA] = {false, false, false}; Model M;
+    auto *cl = static_cast<event::CommonLoop *>(loop); struct timespec ts0; syscall(228 /*SYS_clock_gettime*/, 1 /*CLOCK_MONOTONIC*/, &ts0); const unsigned long long mono0 = (unsigned long long)ts0.tv_sec * 1000ULL + ts0.tv_nsec / 1000000;
     for (int i = 0; i < NA; i++) { al[i] = new WorkdayAlarm(loop); al[i]->setTimezone(0); al[i]->initialize(SOD[i], cal, ONWORK[i]); al[i]->setCallback([] {}); }
     for (auto &o : h) { if (!viol.empty()) break; long long t;
       switch (o.k) {
@@ -44,7 +50,13 @@ int main(int argc, char **argv) {
         if (al[i]->isEnabled() != en[i]) { viol = "workday-alarm-enabled-state-differs-from-history a" + std::to_string(i); break; }
         if (en[i]) { long long want = 0; M.next(i, want); long long got = al[i]->target_utc_sec_;
           if (got != want) viol = "workday-alarm-not-armed-for-the-earliest-matching-instant-after-calendar-change a" + std::to_string(i) + " armed=" + std::to_string(got) + " expected=" + std::to_string(want);
-          else if ((long long)al[i]->remainSeconds() != want - kNow) viol = "workday-alarm-remainSeconds-wrong a" + std::to_string(i); } }
+          else if ((long long)al[i]->remainSeconds() != want - kNow) viol = "workday-alarm-remainSeconds-wrong a" + std::to_string(i);
+          else { auto *tev = static_cast<event::TimerEventImpl *>(al[i]->sp_timer_ev_); long long dist_ms = (want - kNow) * 1000;
+            auto *rec = tev->is_enabled_ ? cl->timer_cabinet_.at(tev->token_) : nullptr;
+            if (!tev->is_enabled_ || (long long)tev->interval_.count() < dist_ms) viol = "workday-alarm-armed-delay-shorter-than-distance-after-calendar-change a" + std::to_string(i) + " delay_ms=" + std::to_string((long long)tev->interval_.count()) + " distance_ms=" + std::to_string(dist_ms);
+            else if (!rec || (long long)rec->interval < dist_ms || rec->expired < mono0 + (unsigned long long)dist_ms) viol = "workday-alarm-loop-timer-record-shorter-than-distance-after-calendar-change a" + std::to_string(i); } }
+        else if (static_cast<event::TimerEventImpl *>(al[i]->sp_timer_ev_)->is_enabled_) viol = "workday-alarm-disabled-but-timer-still-armed a" + std::to_string(i); }
+      if (viol.empty()) { size_t n = 0; for (int i = 0; i < NA; i++) n += en[i]; if (cl->timer_min_heap_.size() != n) viol = "workday-alarm-stale-loop-timer-record: " + std::to_string(cl->timer_min_heap_.size()) + " records for " + std::to_string(n) + " enabled alarms"; }
     }
     std::string c; for (int i = 0; i < NA; i++) c += en[i] ? 'E' : 'd'; c += "|m" + std::to_string(M.mask) + "|"; for (auto &kv : M.special) c += std::to_string(kv.first - kToday) + (kv.second ? "w" : "h");
     c += "|subs:"; for (auto *a : cal->watch_alarms_) for (int i = 0; i < NA; i++) if (a == al[i]) c += std::to_string(i);        // subscription order is implementation state
